@@ -26,6 +26,7 @@ impl Visitor<Statement> for ForNextCounterMatch {
 impl Visitor<ForLoop> for ForNextCounterMatch {
     fn visit(&mut self, f: &ForLoop) -> crate::core::VisitResult {
         self.ensure_numeric_variable(f)?;
+        self.ensure_numeric_bounds(f)?;
         self.ensure_for_next_counter_match(f)
     }
 }
@@ -47,6 +48,26 @@ impl ForNextCounterMatch {
             // e.g. an array element or a property
             _ => Err(LintError::VariableRequired.at_pos(*pos)),
         }
+    }
+
+    /// The start value, the limit and the step must be numeric:
+    /// not a string, a record or an array without subscripts.
+    fn ensure_numeric_bounds(&self, f: &ForLoop) -> Result<(), LintErrorPos> {
+        for bound in [Some(&f.lower_bound), Some(&f.upper_bound), f.step.as_ref()]
+            .into_iter()
+            .flatten()
+        {
+            match bound.expression_type() {
+                ExpressionType::BuiltIn(TypeQualifier::DollarString) => {
+                    return Err(LintError::TypeMismatch.at(bound));
+                }
+                ExpressionType::BuiltIn(_) => {}
+                _ => {
+                    return Err(LintError::TypeMismatch.at(bound));
+                }
+            }
+        }
+        Ok(())
     }
 
     fn ensure_for_next_counter_match(&self, f: &ForLoop) -> Result<(), LintErrorPos> {
